@@ -116,7 +116,6 @@ def run(ctx):
     jobs.append(job("errhandling", eh, ["--triples", "nans"], "c09-eh"))
     for k in range(4):
         jobs.append(job("errhandling", eh, ["--triples", "cube0", "1", str(k), "4"], "c09-eh"))
-    jobs.append(job("info", fast, ["--info"], "c09"))
     # 6b. three-argument hypot: alphabet-0 cube with integer verdict + MPFR on every triple; derived family (z around 2^-k max(|x|,|y|),
     #     k = 10..20, three positions) over all alphabet-1 pairs; all exact-tie pairs of sqrt(x^2+y^2) x tiny z
     for k in range(16):
@@ -161,7 +160,7 @@ def run(ctx):
         "(precision 11, emin -23, emax 16, mpfr_subnormalize), 0 ULP for functions documented exact to rounding, <= 1 ULP for those documented possibly 1 ULP off (expm1 log1p erf erfc lgamma tgamma pow atan2), "
         "NaN/infinity/exact-zero results exact; (2) all 2^16 inputs of ceil floor trunc round rint nearbyint frexp modf ilogb logb and all finite inputs of lround llround lrint llrint against the float functions; "
         "(3) ldexp scalbn scalbln on all halves x an exponent alphabet in each entry point's own exponent type: -60..60, INT_MIN, INT_MIN+1, -2^30, -2^16, +-61, 2^16, 2^30, INT_MAX-1, INT_MAX, and for scalbln(half,long) also "
-        "+-(2^31-1), +-2^31, +-(2^31+1), +-(2^32-1), +-2^32, +-(2^32+1), +-(2^32+-20), +-2^33, +-2^40, +-2^48, +-2^62, LONG_MAX-32, LONG_MIN+16, oracle = correctly rounded x*2^e; (4) hypot pow atan2 fmod remainder remquo fdim fmax fmin nextafter copysign on all ordered pairs of a 1000-value boundary alphabet "
+        "+-(2^31-1), +-2^31, +-(2^31+1), +-(2^32-1), +-2^32, +-(2^32+1), +-(2^32+-20), +-2^33, +-2^40, +-2^48, +-2^62 and the extremes LONG_MAX, LONG_MAX-1, LONG_MAX-31, LONG_MAX-32, LONG_MIN, LONG_MIN+1, LONG_MIN+9, LONG_MIN+10, LONG_MIN+11, oracle = correctly rounded x*2^e; (4) hypot pow atan2 fmod remainder remquo fdim fmax fmin nextafter copysign on all ordered pairs of a 1000-value boundary alphabet "
         "(every exponent x 16 mantissas x sign + inf/NaNs) with MPFR deciding every pair, and of a 3976-value alphabet (every exponent x 64 mantissas x sign + inf/NaNs) with an exact/long-double reference and MPFR "
         "for every pair within 2^-26 ulp of a rounding boundary, every mismatch and every accepted 1-ULP difference; "
         "(4c) three-argument hypot(x,y,z), verdict = correctly rounded sqrt(x^2+y^2+z^2) by exact 128-bit integer arithmetic (cross-checked with MPFR): all ordered triples of a 315-value alphabet "
@@ -184,7 +183,7 @@ def run(ctx):
         "remquo: value judged exactly, quo judged for sign and the low 3 bits as C requires; not judged when C leaves quo unspecified (x infinite/NaN, y zero/NaN)",
         "lround/llround/lrint/llrint only on finite inputs (C leaves the rest unspecified); frexp exponent only for finite inputs",
         "three-argument hypot is decided over alphabets and derived families (stated in rule), not over all 2^48 triples; a triple that belongs to several families is evaluated in each but counted once (conservatively) in distinct_nontrivial",
-        "nexttoward, fma and sqrt are not part of this check (fma/sqrt: C08); scalbln within 31 of LONG_MAX / 10 of LONG_MIN is reported as information only (the unmodified code overflows a long there)",
+        "nexttoward, fma and sqrt are not part of this check (fma/sqrt: C08)",
         "g++ 12 -O2 on x86-64 (plus an ASan/UBSan-bounds -O1 build over all unary inputs and the alphabet-1 pairs)",
     ]
     if quick:
